@@ -168,6 +168,8 @@ def monitor(c):
         items = c["items"]
         classes = [item_class(it) for it in items]
         bad = [x for x in classes if x]
+        # a dangling escape swallows what follows it, whatever that is: it takes precedence
+        bad.sort(key=lambda x: 0 if x == "quoted-edge-escape" else 1)
         cls0 = {"class": bad[0] if bad else "v0", "stream": "params"}
         if c.get("err"):
             return ("loading the documented parameter string failed: %s" % c["err"], cls0)
@@ -199,6 +201,12 @@ def monitor(c):
         if c.get("err"):
             return ("output run failed: %s" % c["err"], {"class": "output-run", "stream": "out"})
         exp = go_trim(ob)
+        # what is recorded for handlers and a later retry: exactly one entry, OUT -> OUT=TrimSpace(stdout)
+        if is_utf8(ob) and c.get("entries_b64") is not None and not has_err:
+            ent = {k: base64.b64decode(v) for k, v in c["entries_b64"].items()}
+            if ent != {"OUT": b"OUT=" + exp}:
+                return ("the recorded output map is %r, expected one entry OUT -> OUT=TrimSpace(stdout)" % {k: _short(v) for k, v in ent.items()},
+                        {"class": "output-record", "stream": "out"})
         for name in ("d1", "d1arg", "d2", "handler", "retry"):
             p = (c.get("probes") or {}).get(name)
             if p is None:
@@ -459,6 +467,11 @@ def run(ctx, replay_cases=None):
                        "containing a quote, =, back-tick, backslash or space; an item list with a quoted or named item; a non-empty output")
     ctx.cov["streams"] = streams
     ctx.cov["item_lists_by_class"] = classes
+    # how tight V0 is: item lists outside V0 that the implementation nevertheless parses to their values (all of
+    # them context dependent: a trailing backslash / a trailing = in the LAST quoted item, no quote after it)
+    ctx.cov["outside_V0_yet_correct"] = sum(
+        1 for c in cases if c["stream"] == "doc" and not c.get("err")
+        and any(item_class(it) for it in c["items"]) and c["params"] == [stringify(it) for it in c["items"]])
     ctx.cov["outputs"] = {"sizes": sorted({len(out_bytes(c)) for c in cases if c["stream"] == "out" and c.get("gen") == "size"}),
                           "with_stderr": sum(1 for c in cases if c["stream"] == "out" and c.get("err_b64")),
                           "hung": sum(1 for c in cases if c["stream"] == "out" and c.get("hang"))}
